@@ -265,7 +265,7 @@ func (r *WireReader) Range(start, end int) Wire {
 		ret := make(Wire, endSeg-startSeg+1)
 		ret[0] = r.wire[startSeg][startPos:]
 		for i := startSeg + 1; i < endSeg; i++ {
-			ret[i] = r.wire[i]
+			ret[i-startSeg] = r.wire[i]
 		}
 		ret[endSeg-startSeg] = r.wire[endSeg][:endPos]
 		return ret
